@@ -223,3 +223,17 @@ def resTag {α} : Res α → String
   | .ok _ => "ok" | .err => "err" | .io => "io" | .panic _ => "PANIC" | .fuel => "FUEL"
 
 end Liquid.Codec
+
+namespace Liquid.Codec
+open Liquid
+
+def sortKvs (kvs : List (Str × V)) : List (Str × V) :=
+  kvs.mergeSort (fun a b => strCmp a.1 b.1 != .gt)
+
+/-- like `encV`, objects sorted by key (canonical form for observations) -/
+partial def encVSorted : V → List String
+  | .arr xs => ("A" ++ toString xs.length) :: xs.flatMap encVSorted
+  | .obj kvs => ("O" ++ toString kvs.length) :: (sortKvs kvs).flatMap fun (k, v) => ("k" ++ hexOfStr k) :: encVSorted v
+  | v => encV v
+
+end Liquid.Codec
